@@ -340,10 +340,10 @@ Definition gen_exec_event (md : hmode) (p : program) (s : sim) (e : ev) : sim * 
 Definition py_execute (md : hmode) (p : program) (w : bool) (s : sim) (e : ev) : gres :=
   let '(s1, failed) := gen_exec_event md p s e in
   if failed then GExc EDSOL w s1 else GRet RNone w s1.
-(* model.construct_model(): handler 0 (a failing one is outside the model) *)
+(* model.construct_model(): handler 0; what it raises is not a DSOLError and propagates *)
 Definition py_construct_model (p : program) (w : bool) (s : sim) : gres :=
   let '(s1, failed) := gen_exec_actions InConstruct (set_created [] s) (body p 0) in
-  GRet RNone w (if failed then raise_flag s1 else s1).
+  if failed then GExc EOther w s1 else GRet RNone w s1.
 """
 
 POSTLUDE_REQUIRES = ["gen_SimulatorWorkerThread_run", "gen_DEVSSimulator_initialize", "gen_Simulator_start", "gen_Simulator_step",
@@ -366,7 +366,8 @@ Definition gen_do_cmd (fuel : nat) (p : program) (s : sim) (c : cmd) : sim * cre
       match gen_DEVSSimulator_initialize p false s ModelOk (ReplOk r) with
       | GRet _ _ s1 => (s1, ResOk)
       | GExc EDSOL _ s1 => if running s then (s1, ResRefused) else (raise_flag s1, ResOk)
-      | GExc _ _ s1 => (raise_flag s1, ResRefused)
+      | GExc EOther _ s1 => (s1, ResRaised)       (* construct_model raised: initialize aborted, the exception escapes *)
+      | GExc EExit _ s1 => (raise_flag s1, ResRefused)
       end
   | CInitBad => gen_settle fuel p (gen_DEVSSimulator_initialize p false s ModelBad (ReplOk (mkRepl 0 0 40)))
   | CStart => gen_settle fuel p (gen_Simulator_start false s)
